@@ -150,7 +150,7 @@ theorem upreset_branch (c : Cfg) (ar aq : Nat) (s : S) (b : Base c ar aq s) (hru
     have hph' : s1.phase ≠ .UpFilter := by rw [e_ph]; exact hphase
     by_cases hchk : (chk == ShouldRetry) = true
     · simp only [hchk, if_true]
-      unfold setupRetry
+      rw [setupRetry_eq]
       by_cases hexp : (setupRetryChecksExpiry && s1.globalExpired) = true
       · simp only [hexp, if_true]
         exact finish_branch c ar aq s1 _ hb1 e_run e_cl how h3' h6' e_pd e_sr e_ps e_up hlc' e_rst hph'
